@@ -20,8 +20,10 @@ a = ap.parse_args()
 
 
 def run(cmd, cwd, timeout=900):
+    # PYTHONPATH = the scratch checkout: /venv has an editable install of demeter pointing at /repo, so a demo that does
+    # not put its checkout first on sys.path itself would silently test /repo instead of the patched tree
     return subprocess.run(cmd, cwd=cwd, capture_output=True, text=True, timeout=timeout,
-                          env=dict(os.environ, PYTHONDONTWRITEBYTECODE="1"))
+                          env=dict(os.environ, PYTHONDONTWRITEBYTECODE="1", PYTHONPATH=cwd))
 
 
 def baseline(wt):
